@@ -10,7 +10,7 @@
    to hold: LeftScalarMult s > 0, RightScalarMult s <> 0, RightVectorMult entries <> 0,
    QuadraticPerturb a >= 0, Huber gamma > 0, QuadraticForm scaling > 0, vectors of length n.
    [sqrtf] is np.sqrt: any function with the defining property of the square root. *)
-From Coq Require Import Reals List Bool.
+From Coq Require Import Reals Qreals List Bool.
 From Verif Require Import Base.Num Base.Vec Base.VecR C08.Model C08.VecLemmas C08.Rules C08.Proofs
   C08.ProxRules C08.Moreau C08.GradEq C08.Biconj C08.KL C08.ConjTables C08.Transfer.
 Import ListNotations.
@@ -148,9 +148,9 @@ Print Assumptions cconj_is_generated_Q.
    and with [cconj] on every tree whose RightVectorMult multipliers have nonzero entries. *)
 Theorem value_Q_is_restriction_of_R : forall (sq : QArith_base.Q -> QArith_base.Q) (sr : R -> R) (e : fxQ),
   sqrt_free e = true -> forall w x,
-  rmap eR (value sq nzero e w x) = value sr nzero (fR e) (map Qreals.Q2R w) (map Qreals.Q2R x).
+  rmap eR (value sq nzero e w x) = value sr nzero (fR e) (map Q2R w) (map Q2R x).
 Proof. exact value_transfer. Qed.
 Theorem cconj_Q_is_restriction_of_R : forall (e : fxQ), vec_nz e -> forall w,
-  rmap fR (cconj w e) = cconj (map Qreals.Q2R w) (fR e).
+  rmap fR (cconj w e) = cconj (map Q2R w) (fR e).
 Proof. exact cconj_transfer. Qed.
 Print Assumptions cconj_Q_is_restriction_of_R.
